@@ -31,6 +31,23 @@ def pollReadConds : List String :=
   ["s.closed", "s.f!=nil", "for:i<s.ReadAttempts", "n>0", "err!=nil&&err!=io.EOF", "s.Reopen",
    "st!=nil&&st.Size()!=s.readBytes", "st.Size()>=s.readBytes", "err!=nil"]
 
+/-- The poller's offset `readBytes` is written in exactly three places, all of them in the model
+    (`pinit` for `Drain`, `readSome` for `+= n`, `openNew` for `= 0` – the latter only on the "shorter file"
+    branch).  A write anywhere else in poller.go – e.g. a re-open helper that zeroes it before the
+    caller's `Seek(s.readBytes)` – is not in the model. -/
+def pollOffsetWrites : List String :=
+  ["PollingFollowReader.Drain:s.readBytes=offset", "PollingFollowReader.Read:s.readBytes+=int64(n)",
+   "PollingFollowReader.Read:s.readBytes=0"]
+
+/-- the file handle is replaced only by the `os.Open` of the re-open block (and dropped by `Close`) -/
+def pollHandleWrites : List String :=
+  ["PollingFollowReader.Close:s.f=nil", "PollingFollowReader.Read:s.f,_=os.Open(s.filename)"]
+
+/-- `openNew`: open the path; size ≥ offset → seek to the offset (resume), else restart at 0 -/
+def pollReopenBlock : List String :=
+  ["s.f,_=os.Open(s.filename)",
+   "ifst.Size()>=s.readBytes{s.f.Seek(s.readBytes,io.SeekStart)}else{s.readBytes=0}"]
+
 /-! #### observation point (b): `syncReaderToBatcherWithTimeFlush` and `TailFilesToChan` -/
 
 /-- `batch` is created with `make`, grows by `append` only, and is re-assigned after a send with a FRESH
